@@ -299,16 +299,17 @@ theorem C16_withHost_validates (e : Env) (u u' : Url) (h : Str) :
 
 /-! ### NFKC screen -/
 
-/-- a non-ASCII authority whose NFKC form (of the text with @ : # ? removed) contains a delimiter is rejected -/
+/-- a non-ASCII authority whose NFKC form (of the text with @ : # ? [ ] removed) contains a delimiter is rejected;
+    since fix 27f84d3 the brackets '[' ']' count as delimiters too (U+FF3B / U+FF3D) -/
 theorem C16_nfkc_rejects (o : Oracles) (netloc nn : Str) :
-    o.nfkc (netloc.filter (fun c => c ≠ 64 ∧ c ≠ 58 ∧ c ≠ 35 ∧ c ≠ 63)) = some nn →
-    nn ≠ netloc.filter (fun c => c ≠ 64 ∧ c ≠ 58 ∧ c ≠ 35 ∧ c ≠ 63) →
-    (∃ c ∈ nn, c = 47 ∨ c = 63 ∨ c = 35 ∨ c = 64 ∨ c = 58) → checkNetloc o netloc = .error .valueError := by
+    o.nfkc (netloc.filter (fun c => c ≠ 64 ∧ c ≠ 58 ∧ c ≠ 35 ∧ c ≠ 63 ∧ c ≠ 91 ∧ c ≠ 93)) = some nn →
+    nn ≠ netloc.filter (fun c => c ≠ 64 ∧ c ≠ 58 ∧ c ≠ 35 ∧ c ≠ 63 ∧ c ≠ 91 ∧ c ≠ 93) →
+    (∃ c ∈ nn, c = 47 ∨ c = 63 ∨ c = 35 ∨ c = 64 ∨ c = 58 ∨ c = 91 ∨ c = 93) → checkNetloc o netloc = .error .valueError := by
   intro h1 h2 h3
   unfold checkNetloc
   simp only [h1, ask, bind, Except.bind]
   rw [if_neg (fun e => h2 e.symm)]
-  have : nn.any (fun c => decide (c = 47 ∨ c = 63 ∨ c = 35 ∨ c = 64 ∨ c = 58)) = true := by
+  have : nn.any (fun c => decide (c = 47 ∨ c = 63 ∨ c = 35 ∨ c = 64 ∨ c = 58 ∨ c = 91 ∨ c = 93)) = true := by
     rw [List.any_eq_true]
     obtain ⟨c, hc, hd⟩ := h3
     exact ⟨c, hc, by simpa using hd⟩
